@@ -132,3 +132,21 @@ TEXT ·ShapeCALL(SB), NOSPLIT, $0-0
 TEXT ·shapeHelper(SB), NOSPLIT, $0-0
 	ADDQ	$1, ·Calls(SB)
 	RET
+
+// CMP mem,imm8 (8) + JEQ rel8 (2) + JMP rel8 (2) + load (7): the relocated block is 19 bytes and
+// contains a short forward branch (JEQ) whose target is also inside the block, with a rel8 branch
+// that leaves the block (and would have to be widened) in between. Refusal expected.
+TEXT ·ShapeSkip(SB), NOSPLIT, $0-0
+	CMPQ	·Input(SB), $0
+	JEQ	sk_in
+	JMP	sk_far
+sk_in:
+	MOVQ	·Input(SB), AX
+	SUBQ	$600, AX
+	MOVQ	AX, ·Result(SB)
+	RET
+sk_far:
+	MOVQ	·Input(SB), AX
+	ADDQ	$6, AX
+	MOVQ	AX, ·Result(SB)
+	RET
